@@ -143,6 +143,15 @@ for _n, _k in (('ln', 1), ('log10', 1), ('exp', 1), ('powf', 2), ('cbrt', 1), ('
         _EXACT[f'std::{_t}::<impl {_t}>::{_n}'] = _f('libm_' + _n, _k)
         MODEL_DOC[f'std::{_t}::<impl {_t}>::{_n}'] = 'libm transcendental: kept symbolic, enclosed within 1 ulp (assumption A-libm)'
 
+@model('std::f32::<impl f32>::rem_euclid', 'std::f64::<impl f64>::rem_euclid', 'core::f32::<impl f32>::rem_euclid',
+       'core::f64::<impl f64>::rem_euclid',
+       doc='std-documented definition: r = self % rhs; if r < 0.0 { r + rhs.abs() } else { r } (library/std/src/num/f32.rs)')
+def m_rem_euclid(it, st, callee, args, dest_tid, site):
+    a, b = args[0], args[1]
+    r = X.binop('rem', a, b)
+    zero = X.const(r.ty, 0.0)
+    return [(st, X.select(X.binop('lt', r, zero), X.binop('add', r, X.fcall('abs', [b])), r))]
+
 @model('std::f32::<impl f32>::mul_add', 'std::f64::<impl f64>::mul_add', 'core::f32::<impl f32>::mul_add',
        doc='fused multiply-add: single rounding (IEEE fusedMultiplyAdd)')
 def m_mul_add(it, st, callee, args, dest_tid, site):
